@@ -17,7 +17,7 @@ CUSTOM_SPECS = [
     },
     {
         'top_role': ':ROOT',
-        'roles': {':R[a-c]': {}, ':x-of': {}, ':rel': {}, ':val': {}, ':r\u00f4le': {}},      # a role that is not ASCII
+        'roles': {':R[a-c]': {}, ':x-of': {}, ':rel': {}, ':val': {}, ':r\u00f4le': {}, ':u|:v': {}},      # a role that is not ASCII
         'normalizations': {':relation': ':rel'},
         'reifications': [[':rel', 'relate-01', ':ARG0', ':ARG1'],
                          [':val', 'value-01', ':ARG1', ':ARG2']],
@@ -110,7 +110,7 @@ def inventory(spec):
         edge = [':ARG0', ':ARG1', ':ARG2', ':mod', ':domain', ':op1', ':op2', ':part-of', ':loc', ':snt2', ':q7']
         attr = [':name', ':quant', ':polarity', ':op1', ':mod']
     else:
-        edge = [':Ra', ':Rb', ':Rc', ':x-of', ':rel', ':r\u00f4le']
+        edge = [':Ra', ':Rb', ':Rc', ':x-of', ':rel', ':r\u00f4le', ':u', ':v']
         attr = [':val', ':Ra', ':Rc']
     return edge, attr
 
@@ -128,8 +128,10 @@ def invalid_roles(spec):
         return []   # every role is acceptable?  no: the default model defines none
     if kind == 'amr':
         return [':foo', ':ARG', ':ARG10', ':opx', ':bar-of', ':mod-of-of', ':consist', ':Mod',
-                ':prep-on-behalf', ':snt']
+                ':prep-on-behalf', ':snt',
+                # digits that are not 0-9 are not role indices
+                ':op\uff13', ':ARG\u0967', ':op1\u0662', ':snt\u0663-of']
     s = spec['spec']
     if ':mod' in s['roles']:
         return [':foo', ':ARG', ':part', ':location', ':bar-of', ':ARG0-of-of']
-    return [':foo', ':Rd', ':x', ':R', ':Ra-of-of', ':TOP']      # :TOP is not defined here (top role is :ROOT)
+    return [':foo', ':Rd', ':x', ':R', ':Ra-of-of', ':TOP', ':ux', ':u-extra', ':uv']      # :TOP is not defined here (top role is :ROOT)
